@@ -1242,13 +1242,10 @@ func vFamilyPart(set string, parts int) int {
 //verif:opts split=part:12 obl-timeout=240000 wall=1500
 func VerifC02_L2_Single() { vCompareMachine("T2s", vFamilyPart("T2s", 12)) }
 
-// VerifC02_L2_LaneAccess: the v128 lane loads/stores (and scalars fused from loads into lane inserts) at the level of the
+// VerifC02_L2_LaneAccess: the v128 full-width and lane loads/stores (and scalars fused from loads into lane inserts) at the level of the
 // final machine instructions, for every memory size below 4 GiB: the checked extent is as wide as the access.
-//verif:opts split=prog:22 obl-timeout=240000 wall=1500
-func VerifC02_L2_LaneAccess() {
-	_, _, _, _, _, _, n := frontend.VProgram("T6m", 0)
-	vCompareMachine("T6m", verifrt.Choose("prog", n))
-}
+//verif:opts split=part:8 obl-timeout=240000 wall=1500
+func VerifC02_L2_LaneAccess() { vCompareMachine("T6m", vFamilyPart("T6m", 8)) }
 
 // VerifC02_L2_Reuse: the reuse shapes (same base value re-addressed, across calls and memory.grow, constant bases folded
 // into address modes) at the level of the final machine instructions.
